@@ -1,8 +1,10 @@
 -------------------------- MODULE EndpointQuicTrace --------------------------
 (* Trace validation of the hook events of a real endpoint serving QUIC clients (Core::listen on a   *)
 (* loopback port, quiche client of the harness) against EndpointQuic.tla. Connections are made one  *)
-(* at a time; the harness closes each with a ConnEnd line carrying the CLIENT's view: the random of  *)
-(* its own ClientHello and whether any response arrived.                                            *)
+(* at a time. The harness opens each with a QuicClientHello line carrying the CLIENT's view of the   *)
+(* handshake it completed (the random of its own ClientHello read back from its TLS stack and the    *)
+(* number of Initial datagrams that ClientHello took) and closes it with a ConnEnd line (the random   *)
+(* again, whether any response arrived).                                                             *)
 EXTENDS EndpointQuic, Json, IOUtils, TLCExt
 
 Rec == ndJsonDeserialize(IOEnv.TRACE)
@@ -13,6 +15,8 @@ TPeers == { Rec[i].peer : i \in { j \in 1..N : Rec[j].ev = "QuicEstablished" } }
 CanonMaps == { Rec[j].canon : j \in Cfgs }
 TCanon(a) == LET ms == { m \in CanonMaps : a \in DOMAIN m } IN IF ms = {} THEN a ELSE (CHOOSE m \in ms : TRUE)[a]
 TRandoms == { [hex |-> Rec[i].random, r0 |-> Rec[i].r0] : i \in { j \in 1..N : Rec[j].ev = "QuicEstablished" } }
+THelloSizes == { Rec[i].pkts : i \in { j \in 1..N : Rec[j].ev = "QuicClientHello" } }
+TZero == [hex |-> "0000000000000000000000000000000000000000000000000000000000000000", r0 |-> 0]
 \* the deny rules are the same in every configuration of a run that has them
 TDenyIps == UNION { { Rec[j].deny_ips[k] : k \in 1..Len(Rec[j].deny_ips) } : j \in Cfgs }
 TDenyBelow == IF Cfgs = {} THEN 0 ELSE Rec[CHOOSE j \in Cfgs : TRUE].deny_below
@@ -26,8 +30,15 @@ R == Rec[l]
 
 TConfig == Ev("Config") /\ Adv /\ stage \in {"idle", "closed"}
            /\ rulesOn' = R.deny_rules /\ stage' = "idle" /\ peer' = "" /\ random' = NoRandom /\ verdict' = "none"
+           /\ hello' = NoHello /\ fed' = 0 /\ taken' = NoRandom
            /\ requests' = 0 /\ gSessions' = 0 /\ gTcp' = 0
 
+\* the client's first flight. A client whose handshake did not complete cannot tell the random of "the completed
+\* handshake": should the endpoint report one all the same, any value explains it.
+TClientHello == /\ Ev("QuicClientHello") /\ Adv
+                /\ \E r \in (IF R.established THEN {[hex |-> R.random, r0 |-> R.r0]} ELSE TRandoms \cup {NoRandom}) : ClientHello(r, R.pkts)
+\* the packets of the ClientHello reach the TLS stack (not observed one by one)
+TInitialIn == InitialIn /\ UNCHANGED l
 TEstablished == Ev("QuicEstablished") /\ Adv /\ Established(R.peer, [hex |-> R.random, r0 |-> R.r0])
 TRulesEval == Ev("RulesEval") /\ Adv /\ R.random # "null" /\ RulesEval(R.ip, R.random, R.verdict)
 TSessionOpen  == Ev("Gauge") /\ R.name = "client_sessions" /\ R.delta = 1 /\ R.label = "HTTP3" /\ Adv /\ SessionOpen
@@ -37,18 +48,19 @@ TTcpOpen  == Ev("Gauge") /\ R.name = "outbound_tcp_sockets" /\ R.delta = 1 /\ Ad
 TTcpClose == Ev("Gauge") /\ R.name = "outbound_tcp_sockets" /\ R.delta = 0 - 1 /\ Adv /\ TcpClose
 
 \* the client is gone and the endpoint has settled
-TDropSilent == Ev("ConnEnd") /\ stage \in {"established", "ruled", "other"} /\ Drop /\ UNCHANGED l
+TDropSilent == Ev("ConnEnd") /\ stage \in {"handshake", "established", "ruled", "other"} /\ Drop /\ UNCHANGED l
 \* the client's view agrees with the endpoint's: the random the rules saw is the one of the client's own handshake,
 \* a response was seen only on an allowed connection that processed a request, never on a denied one
 TConnEnd == /\ Ev("ConnEnd") /\ Adv /\ stage \in {"closed", "idle"} /\ gTcp = 0 /\ gSessions = 0
-            /\ (R.established /\ stage = "closed") => R.client_random = random.hex
+            /\ (R.established /\ stage = "closed" /\ random # NoRandom) => R.client_random = random.hex
             /\ R.responded => (verdict = "allow" /\ requests > 0)
             /\ (R.must_respond /\ stage = "closed" /\ verdict = "allow") => R.responded
             /\ stage' = "idle" /\ peer' = "" /\ random' = NoRandom /\ verdict' = "none" /\ requests' = 0
+            /\ hello' = NoHello /\ fed' = 0 /\ taken' = NoRandom
             /\ UNCHANGED << rulesOn, gSessions, gTcp >>
 
-TNext == TConfig \/ TEstablished \/ TRulesEval \/ TSessionOpen \/ TSessionClose \/ TRequest \/ TTcpOpen \/ TTcpClose
-         \/ TDropSilent \/ TConnEnd
+TNext == TConfig \/ TClientHello \/ TInitialIn \/ TEstablished \/ TRulesEval \/ TSessionOpen \/ TSessionClose \/ TRequest
+         \/ TTcpOpen \/ TTcpClose \/ TDropSilent \/ TConnEnd
 
 TInit == l = 1 /\ Init
 TSpec == TInit /\ [][TNext]_tvars
@@ -60,5 +72,5 @@ Accepted ==
     ELSE /\ PrintT(<< "UNMATCHED", TLCGet(1), ToJson(Rec[TLCGet(1)]) >>)
          /\ FALSE
 
-TraceInv == NoRequestUnlessAllowed /\ DeniedIsClosed /\ VerdictIsRules /\ SessionGauge /\ TcpOnlyServed
+TraceInv == NoRequestUnlessAllowed /\ DeniedIsClosed /\ HandshakeRandom /\ VerdictIsRules /\ SessionGauge /\ TcpOnlyServed
 =============================================================================
